@@ -165,3 +165,65 @@ func VerifHarness_C02_OpenLog() {
 	_ = time.Second
 	vsymReach("C02_openlog")
 }
+
+// C20-O2b / C02-O3b: a Docker label whose sanitised key coincides with a
+// built-in label (container, container_name, container_id, ...).  The
+// container carrying k=v is selected by {sanitised(k)="v"} all the same: the
+// Docker label is the value of that name.
+func VerifHarness_C02_FetchShadow() {
+	const C = 2
+	fc := newFakeClient(C)
+	keys := []string{"container", "container.name", "container-id", "container_image", "Container"}
+	k0 := keys[vsymChoice("shadowKey", len(keys))]
+	v0 := vsymString("dockerVal", 1)
+	k1 := vsymString("dockerKey", 1)
+	v1 := vsymString("dockerVal", 1)
+	dkeys := []string{k0, k1}
+	dvals := []string{v0, v1}
+	for i := 0; i < C; i++ {
+		fc.ctrs = append(fc.ctrs, types.Container{
+			ID: "id" + strconv.Itoa(i), Names: []string{"/c" + strconv.Itoa(i)}, Image: "img", State: "running",
+			Labels: map[string]string{dkeys[i]: dvals[i]},
+		})
+	}
+	// reference label lookup: the Docker label under its sanitised name, else the built-in label, else nothing
+	lookup := func(i int, label string) string {
+		if otelstorage.KeyToLabel(dkeys[i]) == label {
+			return dvals[i]
+		}
+		switch label {
+		case "container", "container_name":
+			return "c" + strconv.Itoa(i)
+		case "container_id":
+			return "id" + strconv.Itoa(i)
+		case "container_image":
+			return "img"
+		case "container_state":
+			return "running"
+		case "container_created":
+			return "0"
+		}
+		return ""
+	}
+	label := otelstorage.KeyToLabel(k0)
+	op := []logql.BinOp{logql.OpEq, logql.OpNotEq}[vsymChoice("op", 2)]
+	val := []string{v0, "c0", "c1", "id0", "img"}[vsymChoice("value", 5)]
+	q := &Querier{client: fc}
+	got, err := q.fetchContainers(context.Background(), logqlengine.SelectLogsParams{Labels: []logql.LabelMatcher{{Label: logql.Label(label), Op: op, Value: val}}})
+	vsymAssert(err == nil, "listing containers succeeds")
+	for i := 0; i < C; i++ {
+		n := 0
+		for _, c := range got {
+			if c.ID == "id"+strconv.Itoa(i) {
+				n++
+			}
+		}
+		want := verifXor(lookup(i, label) == val, op == logql.OpNotEq)
+		if want {
+			vsymAssert(n == 1, "a container carrying Docker label k=v is selected by {sanitised(k)=\"v\"}, also when the name is a built-in one")
+		} else {
+			vsymAssert(n == 0, "a container whose labels do not satisfy the selector is not read")
+		}
+	}
+	vsymReach("C02_fetch_shadow")
+}
